@@ -29,6 +29,15 @@ package deprecatedstate
 //@ extern func github.com/Masterminds/semver/v3.(*Version).LessThan
 //@   requires v != nil && o != nil
 //@   ensures result == verLess(*v, *o)
+//@ extern func github.com/Masterminds/semver/v3.(*Version).GreaterThan
+//@   requires v != nil && o != nil
+//@   ensures result == verLess(*o, *v)
+//@ extern func github.com/Masterminds/semver/v3.(*Version).LessThanEqual
+//@   requires v != nil && o != nil
+//@   ensures result == !verLess(*o, *v)
+//@ extern func github.com/Masterminds/semver/v3.(*Version).GreaterThanEqual
+//@   requires v != nil && o != nil
+//@   ensures result == !verLess(*v, *o)
 //@ extern func github.com/NethermindEth/juno/core/crypto.PoseidonElems
 //@   ensures len(elems) == 3 && elems[0] != nil && elems[1] != nil && elems[2] != nil ==> result == poseidon3(*elems[0], *elems[1], *elems[2])
 //@ func (*State).storage
